@@ -200,6 +200,7 @@ def sanitise (bad : α → Bool) (x : α) : α := if bad x then zero else x
 structure ArrDesc where
   buf : Nat          -- buffer id
   contig : Bool      -- C-contiguous
+  fcontig : Bool     -- Fortran-contiguous (its transposed view is then C-contiguous)
   f64 : Bool         -- dtype float64
   isArray : Bool     -- an ndarray (not a list / other container)
 deriving DecidableEq, Repr
@@ -221,14 +222,14 @@ deriving Repr
 def heapStep (s : HeapSt) : HeapOp → HeapSt
   | .asarray =>
     if s.cur.isArray then s
-    else { s with cur := { buf := s.next, contig := true, f64 := s.cur.f64, isArray := true }, next := s.next + 1 }
-  | .transposeView => { s with cur := { s.cur with contig := false } }
+    else { s with cur := { buf := s.next, contig := true, fcontig := false, f64 := s.cur.f64, isArray := true }, next := s.next + 1 }
+  | .transposeView => { s with cur := { s.cur with contig := s.cur.fcontig, fcontig := s.cur.contig } }
   | .ascontig64 =>
     if s.cur.contig && s.cur.f64 then s
-    else { s with cur := { buf := s.next, contig := true, f64 := true, isArray := true }, next := s.next + 1 }
+    else { s with cur := { buf := s.next, contig := true, fcontig := false, f64 := true, isArray := true }, next := s.next + 1 }
   | .nanToNumInPlace => { s with written := s.cur.buf :: s.written }
   | .nanToNumCopy =>
-    { s with cur := { buf := s.next, contig := true, f64 := true, isArray := true }, next := s.next + 1 }
+    { s with cur := { buf := s.next, contig := true, fcontig := false, f64 := true, isArray := true }, next := s.next + 1 }
 
 def heapRun (ops : List HeapOp) (input : ArrDesc) : HeapSt :=
   ops.foldl heapStep { cur := input, next := input.buf + 1, written := [] }
